@@ -4,10 +4,15 @@ base snapshot /tmp/w/base; shared files are reported, never copied."""
 import os,sys,filecmp,shutil
 prop=sys.argv[1]; apply='--apply' in sys.argv
 ws=f'/tmp/w/{prop}/verif'; base='/tmp/w/base'
+import subprocess
+bc=os.path.join(ws,'.base_commit')
+if os.path.exists(bc):
+    c=open(bc).read().strip(); base=f'/tmp/w/base-{c}'
+    if not os.path.exists(base): subprocess.run(['git','-C','/verif','worktree','add','-q','--detach',base,c],check=True)
 SKIP_DIRS={'.git','.lake','bin','replays','evidence','__pycache__'}
 SHARED={'check','setup.sh','MANIFEST.json','DESIGN.md','properties.jsonl','harness/go.mod','harness/go.sum','lean/Main.lean','lean/Karp.lean','lean/lakefile.toml',
         'lean/Karp/Driver/All.lean','lean/Karp/Driver/Proto.lean','harness/cmd/kdiff/main.go','harness/cmd/kdiff/imports.go','harness/cmd/kfacts/main.go','harness/cmd/kfacts/facts.go',
-        'harness/internal/core/core.go','harness/internal/registry/registry.go','docs/CONVENTIONS.md','tools/mkmanifest.py','tools/mkworkspace.sh','.gitignore','.repo_path','known_findings.json'}
+        'harness/internal/core/core.go','harness/internal/registry/registry.go','docs/CONVENTIONS.md','tools/mkmanifest.py','tools/mkworkspace.sh','.gitignore','.repo_path','.base_commit','.check.lock','known_findings.json'}
 changed=[]
 for root,dirs,files in os.walk(ws):
     dirs[:]=[d for d in dirs if d not in SKIP_DIRS]
